@@ -393,6 +393,12 @@ func (w *World) Apply(st Stim) bool {
 			w.D.Go(st.T, func() string { return ErrClass(s.MsgSend(&dir.Msg{Data: Pad(tag, 1)}, w.Enc)) })
 		case "Send2":
 			w.D.Go(st.T, func() string { return ErrClass(s.MsgSend(&dir.Msg{Data: Pad(tag, 2)}, w.Enc)) })
+		case "SendG":
+			if !w.Cfg.GateU {
+				w.nst--
+				return false
+			}
+			w.D.Go(st.T, func() string { return ErrClass(s.MsgSend(&dir.Msg{Data: Pad(tag, 1), Park: true}, w.Enc)) })
 		case "SendBad":
 			bad := fmt.Sprintf("bad%d", st.R)
 			w.D.Go(st.T, func() string { return ErrClass(s.MsgSend(&dir.Msg{Data: Pad(bad, 1)}, w.Enc)) })
@@ -509,7 +515,7 @@ func (w *World) Apply(st Stim) bool {
 		return w.D.ReleasePoint(st.T)
 	case "relm":
 		id := w.D.Thread(st.T).GoID()
-		if id == 0 || !w.EGate.ReleaseWho(id) {
+		if id == 0 || !(w.EGate.ReleaseWho(id) || w.Enc.M.ReleaseWho(id)) {
 			return false
 		}
 		w.mark()
@@ -792,6 +798,7 @@ func (w *World) Cleanup() bool {
 			return true
 		}
 		w.Enc.U.ReleaseAll()
+		w.Enc.M.ReleaseAll()
 		w.EGate.ReleaseAll()
 		for _, rs := range w.rpcs {
 			rs.cancel()
